@@ -86,24 +86,54 @@ pub fn check_region(case: &str, got: &[u32], w: i32, h: i32, lines: &[Polyline],
     // polygonal approximation of round pieces: inscribed error r (1 - cos(pi / (2 * 48)))
     let arc_err = 0.5 * sp.width * smax * 6e-4;
     let margin = mu + std::f64::consts::FRAC_1_SQRT_2 + arc_err + 1e-6;
-    let exposed = exposed_boundary(&reg.inner);
+    let qy = Query::new(&reg);
+    let exposed = qy.exposed().to_vec();
     let mut st = Stat { hash: hash64(&got.to_vec()), inside: 0, outside: 0, undecided: false };
     for y in 0..h {
         for x in 0..w {
             let c = (x as f64 + 0.5, y as f64 + 0.5);
             let p = got[(y * w + x) as usize];
-            if union_contains(&reg.inner, c) {
-                if depth(&exposed, c) > margin {
+            if qy.in_inner(c) {
+                if qy.deeper_than(c, margin) {
                     st.inside += 1;
                     if p != 0xffffffff {
-                        return Err(Violation::new(format!("{}/interior-pixel-not-fully-painted", what), case.to_string(), format!("pixel ({},{}) lies inside the stroke region by {:.3} px (margin {:.3}) but is {:#010x}", x, y, depth(&exposed, c), margin, p)));
+                        if std::env::var("VERIF_DEBUG_REGION").is_ok() {
+                            for (a, b) in exposed.iter() {
+                                if crate::model::curve::dist_seg(c, *a, *b) < 3.0 {
+                                    eprintln!("exposed ({:.3},{:.3})-({:.3},{:.3}) d={:.3}", a.0, a.1, b.0, b.1, crate::model::curve::dist_seg(c, *a, *b));
+                                }
+                            }
+                            let dd = depth(&exposed, c);
+                            let mut worst: Option<(f64, f64, f64)> = None;
+                            for k in 0..20000 {
+                                let a = k as f64 * 0.61803398875 * 6.283185307;
+                                let r = dd * ((k % 200) as f64 / 200.0);
+                                let q = (c.0 + r * a.cos(), c.1 + r * a.sin());
+                                if !union_contains(&reg.inner, q) {
+                                    if worst.map_or(true, |w| r < w.2) {
+                                        worst = Some((q.0, q.1, r));
+                                    }
+                                }
+                            }
+                            eprintln!("brute-force: closest sampled point outside the union within the claimed depth {:.3}: {:?}", dd, worst);
+                            for (i, poly) in reg.inner.iter().enumerate() {
+                                if poly_contains(poly, c, 1e-9) {
+                                    eprintln!("in piece {} ({} verts) first {:?}", i, poly.len(), &poly[..poly.len().min(4)]);
+                                }
+                            }
+                        }
+                        // is the pixel deep inside at least one single piece, or only inside the union of
+                        // overlapping pieces (every containing piece has its own outline within the margin)?
+                        let deep_in_one = reg.inner.iter().any(|poly| poly_contains(poly, c, 1e-9) && own_depth(poly, c) > margin);
+                        let fid = if deep_in_one { None } else { Some("overlapping_pieces_interior_undercovered") };
+                        return Err(Violation::new(format!("{}/interior-pixel-not-fully-painted{}", what, if deep_in_one { "" } else { "/only-deep-in-union-of-overlapping-pieces" }), case.to_string(), format!("pixel ({},{}) lies inside the stroke region by {:.3} px (margin {:.3}) but is {:#010x}", x, y, depth(&exposed, c), margin, p)).finding(fid));
                     }
                 }
             } else {
-                let d = dist_to_union(&reg.outer, c);
-                if d > margin {
+                if qy.farther_than(c, margin) {
                     st.outside += 1;
                     if p != 0 {
+                        let d = dist_to_union(&reg.outer, c);
                         return Err(Violation::new(format!("{}/exterior-pixel-touched", what), case.to_string(), format!("pixel ({},{}) lies {:.3} px outside the stroke region (margin {:.3}) but is {:#010x}", x, y, d, margin, p)));
                     }
                 }
